@@ -779,6 +779,39 @@ RULES["R71"] = rule_R71
 RULE_DOC["R71"] = rule_R71.__doc__.strip()
 
 
+def rule_R81(src, stats):
+    """for (I, X) in E.enumerate() { B }  (E a crate iterator, i.e. not ending in `.iter()`)  ->
+    let mut vx_itN = E; let mut vx_nN: usize = 0; loop { match vx_itN.next() { Some(vx_eN) => { let (I, X) = (vx_nN, vx_eN); vx_nN += 1; B } None => { break; } } }
+    (Enumerate::next unrolled: `let a = self.iter.next()?; let i = self.count; self.count += 1; Some((i, a))`; the counter
+    increment keeps std's overflow check as an obligation; N = loop ordinal; `continue`/`break` in B keep their meaning)"""
+    while True:
+        code = _toks(src)
+        hit = False
+        for ordinal, (kw, bopen, bclose) in enumerate(_loops(code), 1):
+            if code[kw].text != "for":
+                continue
+            hdr = src[code[kw].start:code[bopen].start]
+            m = re.match(r"for\s*\(\s*(\w+)\s*,\s*(\w+)\s*\)\s*in\s+(.+?)\s*\.\s*enumerate\s*\(\s*\)\s*$", hdr, re.S)
+            if not m or re.search(r"\.\s*iter\s*\(\s*\)\s*$", m.group(3)):
+                continue
+            i_, x_, e_ = m.groups()
+            n = ordinal
+            src = _replace_spans(src, [
+                (code[kw].start, code[bopen].end,
+                 "let mut vx_it%d = %s; let mut vx_n%d: usize = 0; loop { match vx_it%d.next() { Some(vx_e%d) => { let (%s, %s) = (vx_n%d, vx_e%d); vx_n%d += 1;"
+                 % (n, e_, n, n, n, i_, x_, n, n, n)),
+                (code[bclose].start, code[bclose].end, "} None => { break; } } }")])
+            stats["R81"] = stats.get("R81", 0) + 1
+            hit = True
+            break
+        if not hit:
+            return src
+
+
+RULES["R81"] = rule_R81
+RULE_DOC["R81"] = rule_R81.__doc__.strip()
+
+
 # --------------------------------------------------------------------------- unit parsing
 
 class FnSpec:
